@@ -718,8 +718,8 @@ func c08UnicodeBlock(block int) *astisub.Subtitles {
 func c08WriterCase(c *fw.Ctx) fw.Outcome {
 	seed := c.R.U64()
 	s := c08List(fw.NewRand(seed))
-	if wi := c.Idx - tierN(c.Tier, 150000, 3000000); wi >= 0 && wi < 0x1100 {
-		s = c08UnicodeBlock(int(wi))
+	if wi := c.Idx - tierN(c.Tier, 150000, 3000000); wi >= 0 && wi < sweepBlocks(c.Tier) {
+		s = c08UnicodeBlock(sweepBlock(c.Tier, wi))
 		seed = uint64(wi)
 		c.Count("unicode_blocks_written", 1)
 	}
@@ -884,7 +884,7 @@ func init() {
 		ID:    "C08",
 		Level: "exploration",
 		Rule: "reader cases: a seed document (valid documents of every format from the C01-C06 generators, the repository's testdata, hostile transport streams with a valid packet/table layer and malformed PES payloads / data-unit lengths {0,1,2,3,43,44,45,255} / framing codes / Hamming bytes / packet numbers 0..31 / truncated units / missing tables, or short random bytes) is put through 1..3 mutators (truncate anywhere / at a line boundary, delete-duplicate-swap lines, splice two documents, bit flips, random bytes, dictionary tokens inserted or overwriting, values of quoted attributes and cells of separated lines replaced from a list of wrong-arity/wrong-unit/foreign-keyword values (one to three at once), cut what follows a token, numeric extremes and empties, chunk removal, STL GSI/TTI field mutators, character removal, doubling) and fed to its own reader and to about half of the other five readers, with random reader options (STL ignore-TCP; teletext page in {0,100,888,899,-1,2^20}, PID in {0,256,8191,70000} and the true values), and now and then through Open on a real file with every extension. Oracle: recover() around each call + worker exit status (fatal errors) + stall detector (a case that does not finish within 40 s is re-run alone three times; three time-outs = violation with the goroutine dump, otherwise inconclusive); a panic whose innermost frames are inside go-astits is counted as excluded. " +
-			"writer cases: the first 4352 write every block of 256 code points (all 17 planes, 32 characters to a cue) through the five writers; then cue lists built from the public types with every optional pointer/map independently nil or set, nil/empty Lines and Items, hostile text (leading combining marks, NUL and controls, invalid UTF-8, astral runes, 100 kB lines), negative and huge times, odd metadata, through all five writers and Subtitles.Write. thorough tier: 10 scaling measurements (n vs 8n cues; >40x and >1 s = violation, 12..40x = inconclusive). distinct_nontrivial = distinct inputs.",
+			"writer cases: the first 272 (thorough: 4352) write every block of 256 code points of the BMP and one block of every other plane (thorough: all 17 planes), 32 characters to a cue, through the five writers; then cue lists built from the public types with every optional pointer/map independently nil or set, nil/empty Lines and Items, hostile text (leading combining marks, NUL and controls, invalid UTF-8, astral runes, 100 kB lines), negative and huge times, odd metadata, through all five writers and Subtitles.Write. thorough tier: 10 scaling measurements (n vs 8n cues; >40x and >1 s = violation, 12..40x = inconclusive). distinct_nontrivial = distinct inputs.",
 		Assumptions:  []string{"'never loops forever' is decided as bounded progress (40 s stall limit per case, confirmed by three isolated re-runs); 'time proportional to the input' as a three-valued scaling measurement", "nil *Item elements and map keys different from the definition's id are not 'optional parts' and are not generated"},
 		Cases:        func(tier string) int64 { return rN(tier) + wN(tier) + tierN(tier, 0, 10) },
 		StallSeconds: 40,
